@@ -740,48 +740,8 @@ func ruleC13Gate(r *Run) {
 	isFixed := w.FnOpt("rux", "isFixedPath")
 	// the same test written in line: no '{' and no '[' in the route's path
 	isRoutePath := func(v ssa.Value) bool { return isLoadOfField(v, tm.path) }
-	var noByteOf func(ch byte, subject func(ssa.Value) bool) func(cond ssa.Value, truth bool) bool
+	noByteOf := noByteCond
 	noByte := func(ch byte) func(cond ssa.Value, truth bool) bool { return noByteOf(ch, isRoutePath) }
-	noByteOf = func(ch byte, subject func(ssa.Value) bool) func(cond ssa.Value, truth bool) bool {
-		return func(cond ssa.Value, truth bool) bool {
-			if b, okb := cond.(*ssa.BinOp); okb {
-				c, isCall := b.X.(*ssa.Call)
-				if !isCall || (calleeName(c) != "strings.IndexByte" && calleeName(c) != "strings.IndexRune" && calleeName(c) != "strings.Index") || !subject(c.Call.Args[0]) {
-					return false
-				}
-				if k, okk := constInt(c.Call.Args[1]); okk {
-					if k != int64(ch) {
-						return false
-					}
-				} else if sv, oks := constString(c.Call.Args[1]); !oks || sv != string(ch) {
-					return false
-				}
-				k, okk := constInt(b.Y)
-				if !okk {
-					return false
-				}
-				op := b.Op
-				if !truth {
-					op = negOp(op)
-				}
-				return (op == token.LSS && k == 0) || (op == token.EQL && k == -1) || (op == token.LEQ && k == -1)
-			}
-			if c, isCall := cond.(*ssa.Call); isCall && !truth && calleeName(c) == "strings.ContainsAny" && subject(c.Call.Args[0]) {
-				if sv, oks := constString(c.Call.Args[1]); oks && strings.IndexByte(sv, ch) >= 0 {
-					return true
-				}
-			}
-			if c, isCall := cond.(*ssa.Call); isCall && !truth && (calleeName(c) == "strings.Contains" || calleeName(c) == "strings.ContainsRune") && subject(c.Call.Args[0]) {
-				if sv, oks := constString(c.Call.Args[1]); oks && sv == string(ch) {
-					return true
-				}
-				if k, okk := constInt(c.Call.Args[1]); okk && k == int64(ch) {
-					return true
-				}
-			}
-			return false
-		}
-	}
 	if isFixed != nil && len(isFixed.Params) == 1 {
 		// the predicate itself: it answers true only for strings without '{' and without '['
 		isArg := func(v ssa.Value) bool { return v == ssa.Value(isFixed.Params[0]) }
@@ -1602,4 +1562,91 @@ func ruleC13NoRecover(r *Run) {
 		}
 	}
 	r.Check(rule, "root package:recover only in the dispatcher frame", token.NoPos, n == 0, "no function of the root package other than the request frame recovers panics")
+}
+
+// noByteCond: the branch condition (cond, truth) says that the string `subject` does not contain the byte ch
+// (strings.IndexByte(s, ch) < 0 and its spellings).
+func noByteCond(ch byte, subject func(ssa.Value) bool) func(cond ssa.Value, truth bool) bool {
+		return func(cond ssa.Value, truth bool) bool {
+			if b, okb := cond.(*ssa.BinOp); okb {
+				c, isCall := b.X.(*ssa.Call)
+				if !isCall || (calleeName(c) != "strings.IndexByte" && calleeName(c) != "strings.IndexRune" && calleeName(c) != "strings.Index") || !subject(c.Call.Args[0]) {
+					return false
+				}
+				if k, okk := constInt(c.Call.Args[1]); okk {
+					if k != int64(ch) {
+						return false
+					}
+				} else if sv, oks := constString(c.Call.Args[1]); !oks || sv != string(ch) {
+					return false
+				}
+				k, okk := constInt(b.Y)
+				if !okk {
+					return false
+				}
+				op := b.Op
+				if !truth {
+					op = negOp(op)
+				}
+				return (op == token.LSS && k == 0) || (op == token.EQL && k == -1) || (op == token.LEQ && k == -1)
+			}
+			if c, isCall := cond.(*ssa.Call); isCall && !truth && calleeName(c) == "strings.ContainsAny" && subject(c.Call.Args[0]) {
+				if sv, oks := constString(c.Call.Args[1]); oks && strings.IndexByte(sv, ch) >= 0 {
+					return true
+				}
+			}
+			if c, isCall := cond.(*ssa.Call); isCall && !truth && (calleeName(c) == "strings.Contains" || calleeName(c) == "strings.ContainsRune") && subject(c.Call.Args[0]) {
+				if sv, oks := constString(c.Call.Args[1]); oks && sv == string(ch) {
+					return true
+				}
+				if k, okk := constInt(c.Call.Args[1]); okk && k == int64(ch) {
+					return true
+				}
+			}
+			return false
+		}
+}
+
+// C02-STATIC: the static tier of match answers with the stored route and no parameters. That is right only for
+// routes without variables, so every insert into the static table — in any function, not only in appendRoute — must
+// be guarded by the variable-free test of the *stored route's own whole path*: isFixedPath(route.path) (or the same
+// test in line). A dynamic route filed there under a prefix of its pattern ("/blog[/{category}]" under "/blog"), or
+// promoted there by the caching code after its first match, is answered from then on without its parameter names.
+func ruleC02Static(rule string) func(*Run) {
+	return func(r *Run) {
+		w := r.W
+		r.Floor(rule, 1)
+		tm := newTierModel(w)
+		isFixed := w.FnOpt("rux", "isFixedPath")
+		for _, tu := range tm.tierUpdates() {
+			if tu.fv != tm.stable {
+				continue
+			}
+			stored := canon(tu.mu.Value)
+			pathOfStored := func(v ssa.Value) bool {
+				for {
+					if ct, ok := v.(*ssa.ChangeType); ok {
+						v = ct.X
+						continue
+					}
+					break
+				}
+				ld, ok := v.(*ssa.UnOp)
+				if !ok || ld.Op != token.MUL {
+					return false
+				}
+				fa, ok := ld.X.(*ssa.FieldAddr)
+				return ok && fieldVar(fa.X.Type(), fa.Field) == tm.path && canon(fa.X) == stored
+			}
+			ok := isFixed != nil && factHolds(tu.mu, func(cond ssa.Value, truth bool) bool {
+				c, isCall := cond.(*ssa.Call)
+				return isCall && truth && staticCallee(c) == isFixed && len(c.Call.Args) == 1 && pathOfStored(c.Call.Args[0])
+			})
+			if !ok {
+				ok = factHolds(tu.mu, noByteCond('{', pathOfStored)) && factHolds(tu.mu, noByteCond('[', pathOfStored))
+			}
+			r.Check(rule, fmt.Sprintf("%s:static tier insert#%d guarded", FuncName(tu.f), tu.ord), w.InstrPos(tu.mu), ok,
+				map[bool]string{true: "the insert is reached only when the stored route's whole path has neither '{' nor '['", false: "a route enters the static table without its own whole path having been tested variable-free: the static tier returns it with no parameters, whatever its pattern declares"}[ok])
+		}
+	}
 }
